@@ -259,17 +259,19 @@ def drive_hypothesis(ctx: ShardContext, idx: int, eng: Engine) -> None:
         for sig in [s for s, v in ctx.stats.violations.items() if v["engine"] == eng.name][:3]:
             best = {"case": None, "detail": ""}
 
-            @hypothesis.seed(ctx.engine_seed(idx))
-            @hyp_settings(n, shrink=True)
-            @given(strat)
-            def hunt(case, _sig=sig, _best=best):
-                out = eng.check(case)
-                for s, d in out.violations:
-                    if s == _sig:
-                        _best["case"], _best["detail"] = case, d
-                        raise _Stop()
+            def make_hunt(_sig, _best):
+                @hypothesis.seed(ctx.engine_seed(idx))
+                @hyp_settings(n, shrink=True)
+                @given(strat)
+                def hunt(case):
+                    out = eng.check(case)
+                    for s, d in out.violations:
+                        if s == _sig:
+                            _best["case"], _best["detail"] = case, d
+                            raise _Stop()
+                return hunt
             try:
-                hunt()
+                make_hunt(sig, best)()
             except _Stop:
                 pass
             except Exception:  # shrinker trouble is not a finding
